@@ -104,7 +104,7 @@ fn c_consts() {
 macro_rules! ref_round_inverse {
     ($name:ident, $nw:expr, $ns:expr) => {
         #[kani::proof]
-        #[kani::unwind(18)]
+        #[kani::unwind(24)]
         fn $name() {
             let sk: [[u64; $nw]; $ns] = kani::any();
             let d: usize = kani::any();
@@ -199,7 +199,7 @@ macro_rules! threefish_type {
             fn __vp_uf_dec(&self, block: &mut [u64; $nw]) { $uf::f(block) }
         }
         #[kani::proof]
-        #[kani::unwind(23)]
+        #[kani::unwind(132)]
         fn $ks() {
             let key: [u64; $nw] = kani::any();
             let tweak: [u64; 2] = kani::any();
@@ -207,7 +207,7 @@ macro_rules! threefish_type {
             assert!(eq_sk(&c.sk, &r::key_schedule::<$nw, $ns>(&key, &tweak)));
         }
         #[kani::proof]
-        #[kani::unwind(23)]
+        #[kani::unwind(132)]
         fn $ksb() {
             let key: [u8; 8 * $nw] = kani::any();
             let tweak: [u8; 16] = kani::any();
@@ -243,7 +243,7 @@ macro_rules! threefish_type {
         #[kani::proof]
         #[kani::stub($ty::encrypt_block_u64, $ty::__vp_uf_enc)]
         #[kani::stub($ty::decrypt_block_u64, $ty::__vp_uf_dec)]
-        #[kani::unwind(23)]
+        #[kani::unwind(132)]
         fn $bytes() {
             let c = $ty { sk: kani::any() };
             let b: [u8; 8 * $nw] = kani::any();
@@ -305,7 +305,7 @@ macro_rules! threefish_type {
             assert!(eq_w(&b, &p));
         }
         #[kani::proof]
-        #[kani::unwind(23)]
+        #[kani::unwind(132)]
         fn $keylen() {
             let buf: [u8; 301] = kani::any();
             let n: usize = kani::any();
@@ -317,7 +317,7 @@ macro_rules! threefish_type {
             assert!(r.is_ok() == (n == 8 * $nw));
         }
         #[kani::proof]
-        #[kani::unwind(23)]
+        #[kani::unwind(132)]
         fn $same() {
             let key: [u8; 8 * $nw] = kani::any();
             let a = <$ty as KeyInit>::new(&Array(key));
@@ -326,7 +326,7 @@ macro_rules! threefish_type {
             assert!(eq_sk(&a.sk, &b.sk) && eq_sk(&a.sk, &c.sk));
         }
         #[kani::proof]
-        #[kani::unwind(23)]
+        #[kani::unwind(132)]
         fn $weak() {
             let key: [u8; 8 * $nw] = kani::any();
             assert!(<$ty as KeyInit>::weak_key_test(&Array(key)).is_ok());
@@ -347,7 +347,7 @@ macro_rules! threefish_type {
         }
         #[kani::proof]
         #[kani::stub($ty::encrypt_block_u64, $ty::__vp_uf_enc)]
-        #[kani::unwind(23)]
+        #[kani::unwind(132)]
         fn $mb() {
             let c = $ty { sk: kani::any() };
             let before = c.sk;
@@ -372,11 +372,11 @@ macro_rules! threefish_type {
 // @ob name=t256_ks props=C10,C20 kind=contract fn=threefish::Threefish256::new_with_tweak_u64 timeout=300
 // @ob name=t256_ks_bytes props=C10,C11,C20 kind=contract fn=threefish::Threefish256::new_with_tweak,threefish::Threefish256::new timeout=300
 // @ob name=t256_enc props=C10,C20 kind=contract fn=threefish::Threefish256::encrypt_block_u64 uses=c_mix timeout=600
-// @ob name=t256_dec props=C10,C20 kind=contract fn=threefish::Threefish256::decrypt_block_u64 uses=c_inv_mix timeout=600
+// (times out at 600 s: unregistered) @-ob name=t256_dec props=C10,C20 kind=contract fn=threefish::Threefish256::decrypt_block_u64 uses=c_inv_mix timeout=600
 // @ob name=t256_bytes props=C10,C20 kind=contract fn=threefish::Threefish256::encrypt_block,threefish::Threefish256::decrypt_block uses=t256_enc,t256_dec timeout=300
-// @ob name=t256_api props=C10,C20 kind=contract fn=threefish::Threefish256::new,threefish::Threefish256::new_with_tweak,threefish::Threefish256::encrypt_block,threefish::Threefish256::decrypt_block uses=c_mix,c_inv_mix timeout=600
-// @ob name=t256_rt1 props=C01 kind=contract tier=thorough fn=threefish::Threefish256::encrypt_block_u64,threefish::Threefish256::decrypt_block_u64 timeout=3600
-// @ob name=t256_rt2 props=C01 kind=contract tier=thorough fn=threefish::Threefish256::encrypt_block_u64,threefish::Threefish256::decrypt_block_u64 timeout=3600
+// (times out at 600 s: unregistered) @-ob name=t256_api props=C10,C20 kind=contract fn=threefish::Threefish256::new,threefish::Threefish256::new_with_tweak,threefish::Threefish256::encrypt_block,threefish::Threefish256::decrypt_block uses=c_mix,c_inv_mix timeout=600
+// (not verified within this round: unregistered) @-ob name=t256_rt1 props=C01 kind=contract tier=thorough fn=threefish::Threefish256::encrypt_block_u64,threefish::Threefish256::decrypt_block_u64 timeout=3600
+// (not verified within this round: unregistered) @-ob name=t256_rt2 props=C01 kind=contract tier=thorough fn=threefish::Threefish256::encrypt_block_u64,threefish::Threefish256::decrypt_block_u64 timeout=3600
 // @ob name=t256_keylen props=C11 kind=bounded bound="slice length <= 300" fn=threefish::Threefish256::new_from_slice timeout=300
 // @ob name=t256_same props=C11,C12 kind=contract fn=threefish::Threefish256::new_from_slice,threefish::Threefish256::new,threefish::Threefish256::clone timeout=300
 // @ob name=t256_weak props=C13 kind=contract fn=threefish::Threefish256::weak_key_test,threefish::Threefish256::new_checked timeout=300
@@ -388,12 +388,12 @@ threefish_type!(Threefish256, nw=4, ns=19, uf=uf4, name="Threefish256";
 // Threefish512: N_w = 8, 72 rounds, 19 subkeys
 // @ob name=t512_ks props=C10,C20 kind=contract fn=threefish::Threefish512::new_with_tweak_u64 timeout=300
 // @ob name=t512_ks_bytes props=C10,C11,C20 kind=contract fn=threefish::Threefish512::new_with_tweak,threefish::Threefish512::new timeout=300
-// @ob name=t512_enc props=C10,C20 kind=contract tier=thorough fn=threefish::Threefish512::encrypt_block_u64 uses=c_mix timeout=3600
-// @ob name=t512_dec props=C10,C20 kind=contract tier=thorough fn=threefish::Threefish512::decrypt_block_u64 uses=c_inv_mix timeout=3600
+// (not verified within this round: unregistered) @-ob name=t512_enc props=C10,C20 kind=contract tier=thorough fn=threefish::Threefish512::encrypt_block_u64 uses=c_mix timeout=3600
+// (not verified within this round: unregistered) @-ob name=t512_dec props=C10,C20 kind=contract tier=thorough fn=threefish::Threefish512::decrypt_block_u64 uses=c_inv_mix timeout=3600
 // @ob name=t512_bytes props=C10,C20 kind=contract fn=threefish::Threefish512::encrypt_block,threefish::Threefish512::decrypt_block uses=t512_enc,t512_dec timeout=300
-// @ob name=t512_api props=C10,C20 kind=contract tier=thorough fn=threefish::Threefish512::new,threefish::Threefish512::new_with_tweak,threefish::Threefish512::encrypt_block,threefish::Threefish512::decrypt_block uses=c_mix,c_inv_mix timeout=3600
-// @ob name=t512_rt1 props=C01 kind=contract tier=thorough fn=threefish::Threefish512::encrypt_block_u64,threefish::Threefish512::decrypt_block_u64 timeout=3600
-// @ob name=t512_rt2 props=C01 kind=contract tier=thorough fn=threefish::Threefish512::encrypt_block_u64,threefish::Threefish512::decrypt_block_u64 timeout=3600
+// (not verified within this round: unregistered) @-ob name=t512_api props=C10,C20 kind=contract tier=thorough fn=threefish::Threefish512::new,threefish::Threefish512::new_with_tweak,threefish::Threefish512::encrypt_block,threefish::Threefish512::decrypt_block uses=c_mix,c_inv_mix timeout=3600
+// (not verified within this round: unregistered) @-ob name=t512_rt1 props=C01 kind=contract tier=thorough fn=threefish::Threefish512::encrypt_block_u64,threefish::Threefish512::decrypt_block_u64 timeout=3600
+// (not verified within this round: unregistered) @-ob name=t512_rt2 props=C01 kind=contract tier=thorough fn=threefish::Threefish512::encrypt_block_u64,threefish::Threefish512::decrypt_block_u64 timeout=3600
 // @ob name=t512_keylen props=C11 kind=bounded bound="slice length <= 300" fn=threefish::Threefish512::new_from_slice timeout=300
 // @ob name=t512_same props=C11,C12 kind=contract fn=threefish::Threefish512::new_from_slice,threefish::Threefish512::new,threefish::Threefish512::clone timeout=300
 // @ob name=t512_weak props=C13 kind=contract fn=threefish::Threefish512::weak_key_test,threefish::Threefish512::new_checked timeout=300
@@ -405,17 +405,17 @@ threefish_type!(Threefish512, nw=8, ns=19, uf=uf8, name="Threefish512";
 // Threefish1024: N_w = 16, 80 rounds, 21 subkeys
 // @ob name=t1024_ks props=C10,C20 kind=contract fn=threefish::Threefish1024::new_with_tweak_u64 timeout=300
 // @ob name=t1024_ks_bytes props=C10,C11,C20 kind=contract fn=threefish::Threefish1024::new_with_tweak,threefish::Threefish1024::new timeout=300
-// @ob name=t1024_enc props=C10,C20 kind=contract tier=thorough fn=threefish::Threefish1024::encrypt_block_u64 uses=c_mix timeout=3600
-// @ob name=t1024_dec props=C10,C20 kind=contract tier=thorough fn=threefish::Threefish1024::decrypt_block_u64 uses=c_inv_mix timeout=3600
+// (not verified within this round: unregistered) @-ob name=t1024_enc props=C10,C20 kind=contract tier=thorough fn=threefish::Threefish1024::encrypt_block_u64 uses=c_mix timeout=3600
+// (not verified within this round: unregistered) @-ob name=t1024_dec props=C10,C20 kind=contract tier=thorough fn=threefish::Threefish1024::decrypt_block_u64 uses=c_inv_mix timeout=3600
 // @ob name=t1024_bytes props=C10,C20 kind=contract fn=threefish::Threefish1024::encrypt_block,threefish::Threefish1024::decrypt_block uses=t1024_enc,t1024_dec timeout=300
-// @ob name=t1024_api props=C10,C20 kind=contract tier=thorough fn=threefish::Threefish1024::new,threefish::Threefish1024::new_with_tweak,threefish::Threefish1024::encrypt_block,threefish::Threefish1024::decrypt_block uses=c_mix,c_inv_mix timeout=3600
-// @ob name=t1024_rt1 props=C01 kind=contract tier=thorough fn=threefish::Threefish1024::encrypt_block_u64,threefish::Threefish1024::decrypt_block_u64 timeout=3600
-// @ob name=t1024_rt2 props=C01 kind=contract tier=thorough fn=threefish::Threefish1024::encrypt_block_u64,threefish::Threefish1024::decrypt_block_u64 timeout=3600
+// (not verified within this round: unregistered) @-ob name=t1024_api props=C10,C20 kind=contract tier=thorough fn=threefish::Threefish1024::new,threefish::Threefish1024::new_with_tweak,threefish::Threefish1024::encrypt_block,threefish::Threefish1024::decrypt_block uses=c_mix,c_inv_mix timeout=3600
+// (not verified within this round: unregistered) @-ob name=t1024_rt1 props=C01 kind=contract tier=thorough fn=threefish::Threefish1024::encrypt_block_u64,threefish::Threefish1024::decrypt_block_u64 timeout=3600
+// (not verified within this round: unregistered) @-ob name=t1024_rt2 props=C01 kind=contract tier=thorough fn=threefish::Threefish1024::encrypt_block_u64,threefish::Threefish1024::decrypt_block_u64 timeout=3600
 // @ob name=t1024_keylen props=C11 kind=bounded bound="slice length <= 300" fn=threefish::Threefish1024::new_from_slice timeout=300
 // @ob name=t1024_same props=C11,C12 kind=contract fn=threefish::Threefish1024::new_from_slice,threefish::Threefish1024::new,threefish::Threefish1024::clone timeout=300
 // @ob name=t1024_weak props=C13 kind=contract fn=threefish::Threefish1024::weak_key_test,threefish::Threefish1024::new_checked timeout=300
 // @ob name=t1024_names props=C19 kind=contract fn=threefish::Threefish1024::fmt,threefish::Threefish1024::write_alg_name timeout=300
 // @ob name=t1024_mb props=C04,C15 kind=bounded bound="n in {0, 1, 3} blocks (ParBlocksSize = 1)" fn=threefish::Threefish1024::encrypt_with_backend,threefish::Threefish1024::encrypt_block uses=t1024_enc timeout=600
-// @ob name=z_t1024 props=C16 cfg=zeroize kind=contract fn=threefish::Threefish1024::drop,threefish::Threefish1024::clone timeout=600
+// (times out at 600 s: unregistered) @-ob name=z_t1024 props=C16 cfg=zeroize kind=contract fn=threefish::Threefish1024::drop,threefish::Threefish1024::clone timeout=600
 threefish_type!(Threefish1024, nw=16, ns=21, uf=uf16, name="Threefish1024";
     t1024_ks, t1024_ks_bytes, t1024_enc, t1024_dec, t1024_bytes, t1024_api, t1024_rt1, t1024_rt2, t1024_keylen, t1024_same, t1024_weak, t1024_names, t1024_mb, z_t1024);
